@@ -143,6 +143,12 @@ pub fn eval(c: &ImgCase) -> CaseOut {
     let chunk = [1usize, 7, 100, 511, 512, 513, 4096, 70000][pool.below(8) as usize];
     let truth_label = truth.label;
     let free_expected = dec.free;
+    // a stale (but in-range) count in the FAT32 information sector is what a clean mount reports - documented as
+    // "may be incorrect"; the true count is accepted too (a library is free to recount)
+    let stored_free: Option<u64> = if g.width == 32 && g.raw.fs_info != 0 && c.freedoms.stale_count { Some(refdec::rd32(&img, g.fsinfo_off() + 488) as u64) } else { None };
+    if stored_free.map_or(false, |s| s != free_expected) {
+        out.classes.insert("images_with_stale_fsinfo_free_count".into(), 1);
+    }
     let devh = dev.handle();
     let width = g.width;
     // ground truth of the status flags: boot-sector status byte OR the two flag bits of table entry 1 (FAT16/32)
@@ -175,7 +181,7 @@ pub fn eval(c: &ImgCase) -> CaseOut {
             return Err(format!("root-directory label {:?}, ground truth {:?}", lab, truth_label));
         }
         let st = fs.stats().map_err(|e| format!("stats: {:?}", e))?;
-        if st.free_clusters() as u64 != free_expected {
+        if st.free_clusters() as u64 != free_expected && Some(st.free_clusters() as u64) != stored_free {
             return Err(format!("stats reports {} free clusters, the table has {}", st.free_clusters(), free_expected));
         }
         let fl = fs.read_status_flags().map_err(|e| format!("status flags: {:?}", e))?;
@@ -735,7 +741,8 @@ fn lib_tree_chunked(dir: &session::FDir, chunk: usize, path: &str, depth: usize)
 }
 
 fn freedoms_strategy() -> impl Strategy<Value = Freedoms> {
-    prop::collection::vec(prop::bool::weighted(0.6), 14..=14).prop_map(|b| Freedoms {
+    (prop::collection::vec(prop::bool::weighted(0.6), 14..=14), prop::bool::weighted(0.3)).prop_map(|(b, stale)| Freedoms {
+        stale_count: stale,
         fragmented: b[0],
         backwards: b[1],
         eoc_variants: b[2],
@@ -763,9 +770,9 @@ pub fn replay(v: &serde_json::Value) -> Result<Option<String>, String> {
 }
 
 pub fn run(tier: Tier, seed: u64) -> i32 {
-    let rule = "volumes built by imggen (independent of the library's writer) over 18 geometries (FAT12/16/32, sector 512..4096, 1-3 FATs, mirroring off with each active copy and garbage in inactive ones, root cluster != 2, non-zero FAT32 high nibbles, every end-of-chain value) and populated with named switches: fragmented / backwards chains, BAD clusters, deleted slots and runs, orphan long-name runs (wrong checksum, truncated, followed by a deleted entry), short-only entries with NT lowercase flags / 0x05 lead byte / OEM bytes, labels anywhere in the root, all RO/HID/SYS/ARCH combinations, arbitrary valid timestamps, multi-cluster directories, garbage after the end marker; read oracle = listings, names, short names, attributes, 3 timestamps, sizes, contents (random chunk sizes), label, id, width, free count, status flags equal the builder's ground truth (which refdec must confirm first) and no device write happens; modify oracle = one library mutation (create file/dir, remove, rename, truncate, overwrite, or filling the volume until NotEnoughSpace) then no new refdec finding, expected tree read back by refdec and a fresh mount, and every changed byte of the raw diff lies in the status byte, FS-info, FAT entries (low 28 bits) of clusters that were free or belong to the touched objects, free or own directory slots of the touched directories, timestamp fields of their own entries, or clusters that were free or belong to the touched file; non-trivial = image with >= 3 freedoms and a fragmented file; distinct by hash of the case";
+    let rule = "volumes built by imggen (independent of the library's writer) over 18 geometries (FAT12/16/32, sector 512..4096, 1-3 FATs, mirroring off with each active copy and garbage in inactive ones, root cluster != 2, non-zero FAT32 high nibbles, every end-of-chain value) and populated with named switches: fragmented / backwards chains, BAD clusters, deleted slots and runs, orphan long-name runs (wrong checksum, truncated, followed by a deleted entry), short-only entries with NT lowercase flags / 0x05 lead byte / OEM bytes, labels anywhere in the root, a stale FAT32 FS-info free count (0, half, one less, more than the table has), all RO/HID/SYS/ARCH combinations, arbitrary valid timestamps, multi-cluster directories, garbage after the end marker; read oracle = listings, names, short names, attributes, 3 timestamps, sizes, contents (random chunk sizes), label, id, width, free count, status flags equal the builder's ground truth (which refdec must confirm first) and no device write happens; modify oracle = one library mutation (create file/dir, remove, rename, truncate, overwrite, or filling the volume until NotEnoughSpace) then no new refdec finding, expected tree read back by refdec and a fresh mount, and every changed byte of the raw diff lies in the status byte, FS-info, FAT entries (low 28 bits) of clusters that were free or belong to the touched objects, free or own directory slots of the touched directories, timestamp fields of their own entries, or clusters that were free or belong to the touched file; non-trivial = image with >= 3 freedoms and a fragmented file; distinct by hash of the case";
     let mut rep = Report::new("C08", tier, seed, "exploration", rule);
-    rep.assume("valid volumes only: C07/C17 own the invalid ones; FS-info free count is exact");
+    rep.assume("valid volumes only: C07/C17 own the invalid ones; the FS-info free count is exact or (freedom stale_count) a stale in-range value, which the specification allows");
     rep.assume("names containing OEM bytes >= 0x80 are listed (as U+FFFD) but not used for by-name lookups");
     let mut reg = Block::new("regress");
     for f in run::regress_files("C08") {
